@@ -20,7 +20,7 @@ import (
 	f1testing "github.com/form3tech-oss/f1/v2/pkg/f1/testing"
 )
 
-var behaviours = []string{"pass", "Fail", "FailNow", "panic", "panic(error)", "Require-assertion", "FailNow-in-timed-stage", "panic-in-timed-stage", "runtime-error"}
+var behaviours = []string{"pass", "Fail", "FailNow", "panic", "panic(error)", "Require-assertion", "FailNow-in-timed-stage", "panic-in-timed-stage", "runtime-error", "panic(int)"}
 
 func act(t *f1testing.T, b string) {
 	switch b {
@@ -32,6 +32,8 @@ func act(t *f1testing.T, b string) {
 		panic("component panics")
 	case "panic(error)":
 		panic(errors.New("component panics"))
+	case "panic(int)":
+		panic(42)
 	case "runtime-error":
 		var m map[string]int
 		m["x"] = 1
@@ -199,9 +201,9 @@ func classify(got, want []string) string {
 
 func suites(tier string) []hlib.Suite {
 	if tier == "quick" {
-		return []hlib.Suite{suite(1, 2, 9), suite(3, 3, 5)}
+		return []hlib.Suite{suite(1, 2, 10), suite(3, 3, 5)}
 	}
-	return []hlib.Suite{suite(1, 3, 9), suite(4, 4, 5)}
+	return []hlib.Suite{suite(1, 3, 10), suite(4, 4, 5)}
 }
 
 func main() { hlib.EnumMain("C20", suites) } // hlib initialises the process-wide metrics instance T.Time needs
